@@ -308,12 +308,23 @@ def run(ctx) -> None:
     # ---------------------------------------------------------------- R19.7
     # the readers tokenise every line with str.split(): two numeric fields written back to back fuse as soon as one of them
     # fills its width (energy ≤ −1000 eV, more than 9999 k-points …) and the file can no longer be read
-    r7 = ctx.rule("R19.7", "text writers separate consecutive fields with white space", min_instances=3)
+    r7 = ctx.rule("R19.7", "text writers separate consecutive fields with white space", min_instances=1)
     for f_ in idx.all_functions():
         if not f_.module.relpath.startswith(W90) or f_.name != "to_w90_file":
             continue
+        WS7 = Sem(idx, f_)
         for wc in method_calls(f_.node, "write"):
-            for js in [n_ for n_ in ast.walk(wc) if isinstance(n_, ast.JoinedStr)]:
+            roots7 = [wc]
+            if wc.args:
+                try:
+                    roots7.append(WS7.resolve(wc.args[0], WS7.du.node_of_expr(wc)))      # line formats kept in small private helpers
+                except AnalysisError:
+                    pass
+            seen7 = set()
+            for js in [n_ for rt_ in roots7 for n_ in ast.walk(rt_) if isinstance(n_, ast.JoinedStr)]:
+                if norm(js) in seen7:
+                    continue
+                seen7.add(norm(js))
                 fvs = [v_ for v_ in js.values if isinstance(v_, ast.FormattedValue)]
                 if len(fvs) < 2:
                     continue
